@@ -2816,7 +2816,10 @@ func (b *IPRouteBody) serialize(version uint8, software Software) ([]byte, error
 		tmpbuf := make([]byte, 2)
 		binary.BigEndian.PutUint16(tmpbuf, b.opaque.length)
 		buf = append(buf, tmpbuf...)           // frr: stream_putw(s, api->opaque.length);
-		buf = append(buf, b.opaque.data[:]...) // frr: stream_write(s, api->opaque.data, api->opaque.length);
+		if int(b.opaque.length) > len(b.opaque.data) {
+			return nil, fmt.Errorf("opaque data length %d exceeds %d", b.opaque.length, len(b.opaque.data))
+		}
+		buf = append(buf, b.opaque.data[:b.opaque.length]...) // frr: stream_write(s, api->opaque.data, api->opaque.length);
 	}
 	return buf, nil
 }
